@@ -59,6 +59,37 @@ func resetChans() {
 	nvchans = 0
 }
 
+// compactChans drops the entries of idle channels (nothing queued, nobody
+// waiting): all they hold is the closed flag, which the real channel carries
+// too. Called between runs when library goroutines live on, instead of the full
+// reset; a library that makes a reply channel per request would otherwise fill
+// the table over a long batch.
+//
+//go:norace
+func compactChans() {
+	var keep [256]vchan
+	nk := 0
+	for i := 0; i < nvchans; i++ {
+		c := &vchans[vchanUsed[i]]
+		busy := c.recvs > 0 || (c.q != nil && c.q.n > 0)
+		if !busy {
+			for t := int32(1); t < ntasks && !busy; t++ {
+				busy = tasks[t].state == stBlocked && tasks[t].blockedOn == uintptr(c.key)
+			}
+		}
+		if busy && nk < len(keep) {
+			keep[nk] = *c
+			nk++
+		}
+		*c = vchan{}
+	}
+	nvchans = 0
+	for k := 0; k < nk; k++ {
+		c := vchanOf(keep[k].key)
+		*c = keep[k]
+	}
+}
+
 //go:norace
 func vchanOf(key unsafe.Pointer) *vchan {
 	h := (uintptr(key) >> 4) * 0x9e3779b1
